@@ -582,6 +582,58 @@ def check_with_commit(ctx):
             o.status = 'undecided'; o.detail = 'vacuous'
 
 
+def check_helpers(ctx):
+    """the single-operation helpers of OptimisticTxKeyspace are transactions of their own: they must go through write_tx + commit (oracle), never write to the
+    inner keyspace directly - otherwise an open transaction that read the key is not invalidated by them"""
+    for m in ('insert', 'remove', 'remove_weak', 'fetch_update', 'update_fetch'):
+        pat = r'^optimistic::keyspace::<impl>::' + m + '$'
+        ob = ctx.ob(f'helpers/through-oracle-{m}', f'OptimisticTxKeyspace::{m}: the write is made inside a write transaction obtained from write_tx() and committed through WriteTransaction::commit; no direct write to the inner keyspace', [pat])
+        try:
+            ex, paths = ctx.run(pat, cache_key='c07.helper.' + m, loop_bound=2,
+                                no_inline=[r'write_tx$', r'WriteTransaction::(insert|remove|remove_weak|commit|fetch_update|update_fetch|rollback)$', r'^optimistic::write_tx::<impl>::(insert|remove|remove_weak|commit|fetch_update|update_fetch)$',
+                                           r'^keyspace::<impl>::(insert|remove|remove_weak)$', r'Keyspace::(insert|remove|remove_weak)$'])
+        except KeyError as e:
+            ob.status = 'undecided'; ob.detail = f'function not found: {e}'; continue
+        bad = []
+        for p in paths:
+            if p.status != 'returned' or ctx.sat(p.pc + [ret_is_ok(p)], ob)[0] != z3.sat:
+                continue
+            ob.reach += 1
+            calls = [e.args.get('callee', '') for e in p.events if e.kind == 'CALL']
+            direct = [c for c in calls if c.endswith(('Keyspace::insert', 'Keyspace::remove', 'Keyspace::remove_weak')) or c.startswith('keyspace::<impl>::')]
+            eff = [e for e in p.events if e.kind in ('T_INSERT', 'T_REMOVE', 'T_REMOVE_WEAK', 'J_APPEND')]
+            wt = [c for c in calls if c.endswith('write_tx')]
+            cm = [c for c in calls if c.endswith('::commit')]
+            txw = [c for c in calls if c.endswith(('WriteTransaction::' + m, 'write_tx::<impl>::' + m))]
+            if direct or eff:
+                bad.append((p, f'writes to the inner keyspace directly ({(direct or [eff[0].kind])[0]}): the commit is not registered with the oracle, so a concurrent transaction that read the key is not refused')); continue
+            if not wt or not cm or not txw:
+                bad.append((p, f'acknowledged without write_tx / transaction write / commit (calls: {calls[:5]})')); continue
+        if ob.reach == 0:
+            ob.status = 'undecided'; ob.detail = 'vacuous'
+        elif not bad:
+            ob.status = 'discharged'; ob.sample = {'paths': ob.reach}
+        else:
+            ctx.candidate(ob, f'OptimisticTxKeyspace.{m}/bypasses-oracle', f'{m}: {bad[0][1]}', confirm=lambda: native_helper_conflict(ctx))
+
+
+def native_helper_conflict(ctx):
+    """t1 reads k; a single-operation helper overwrites / removes k; t1 writes something and commits: must be Conflict"""
+    K1, K2 = '6b31', '6b32'
+    last = (False, None, 'not run')
+    for name, h in (('hinsert', f'hinsert a {K1} 3939'), ('hremove', f'hremove a {K1}'), ('htake', f'htake a {K1}')):
+        L = ['dir $DIR/db', 'kind opt', 'open workers=0', 'ks a', f'insert a {K1} 30', 'tx t1 begin', f'tx t1 get a {K1}', h, f'tx t1 insert a {K2} 31', 'tx t1 commit', f'get a {K2}', 'close']
+        spath, out = ctx.run_scenario('\n'.join(L) + '\n', tag='helper-' + name)
+        rs = [(L[i - 1] if 0 < i <= len(L) else '?', r) for i, _c, r in out]
+        if any(c == 'CRASH' for _i, c, _r in out):
+            return True, spath, f'{name}: crash ' + out[-1][2][-200:]
+        cm = [r for l, r in rs if l == 'tx t1 commit']
+        if cm and cm[0] != 'conflict':
+            return True, spath, f't1 read {K1}; `{h}` (single-operation helper) changed it; t1 then wrote and committed: verdict {cm[0]}, serializability requires conflict'
+        last = (False, spath, 'held natively on 3 helper histories')
+    return last
+
+
 def native_commit_battery(ctx):
     """classic SSI histories through the public API; each must end with exactly the expected verdicts"""
     K1, K2 = '6b31', '6b32'
@@ -641,6 +693,7 @@ def run(ctx):
         check_has_conflict(ctx, nr, nk)
     check_mark_range(ctx)
     check_with_commit(ctx)
+    check_helpers(ctx)
     for o in ctx.obligations:
         ctx.samples.append(o.as_dict())
     return ctx.finish()
